@@ -345,12 +345,12 @@ package middleware
 //@ watch CV = invoke (context.Context).Value
 //@ watch NG = call NegotiateContentType
 //@ requires c != nil && c.debugLogf != nil && r != nil && r.URL != nil
-//@ stable r.URL
+//@ stable r.URL, r.Method, r.Header, r.Body
 //@ ensures [C09:lookup] calls(CV) == 1 && arg(CV,0,0) == boxof(ctxResponseFormat)
 //@ ensures [C09:memo] typeis(ret(CV,0,0), "string") ==> calls(NG) == 0 && result1 == r && boxof(result0) == ret(CV,0,0)
 //@ ensures [C09:compute] !typeis(ret(CV,0,0), "string") ==> calls(NG) == 1 && arg(NG,0,0) == r && arg(NG,0,1) == offers && arg(NG,0,2) == "" && result0 == ret(NG,0,0)
 //@ ensures [C09:nofailcache] calls(NG) == 1 && ret(NG,0,0) == "" ==> result1 == r
-//@ ensures result1 != nil
+//@ ensures [C09:samereq] result1 != nil && result1.URL == old(r.URL) && result1.Method == old(r.Method) && result1.Header == old(r.Header) && result1.Body == old(r.Body)
 
 //@ func (*Context).RouteInfo
 //@ watch CV = invoke (context.Context).Value
@@ -483,3 +483,57 @@ package middleware
 //@ ensures [C02:refuse] calls(AZ) == 1 && ret(AZ,0,2) != nil ==> calls(NX) == 0 && calls(RS) == 1 && arg(RS,0,5) == ret(AZ,0,2) && arg(RS,0,1) == rw && arg(RS,0,4) == ret(RI,0,0)
 //@ ensures [C02:admit] calls(AZ) == 1 && ret(AZ,0,2) == nil ==> calls(NX) == 1 && calls(RS) == 0 && arg(NX,0,1) == ret(AZ,0,1)
 //@ ensures [C02:next] calls(NX) == 1 ==> recv(NX,0) == next && arg(NX,0,0) == rw
+
+// ---------------------------------------------------------------- Respond (C08)
+
+//@ func (*Context).Respond
+//@ watch RF = call (*Context).ResponseFormat
+//@ watch HS = call (net/http.Header).Set
+//@ watch NO = call normalizeOffer
+//@ watch WR = invoke (middleware.Responder).WriteResponse
+//@ watch FB = call security.FailedBasicAuth
+//@ watch SP = call fmt.Sprintf
+//@ watch SE = invoke (middleware.RoutableAPI).ServeErrorFor
+//@ watch SD = dyn result:(middleware.RoutableAPI).ServeErrorFor
+//@ watch WH = invoke (net/http.ResponseWriter).WriteHeader
+//@ watch PR = invoke (runtime.Producer).Produce
+//@ watch SR = call (*github.com/go-openapi/spec.Operation).SuccessResponse
+//@ watch PF = invoke (middleware.RoutableAPI).ProducersFor
+//@ panics ok
+//@ requires c != nil && c.debugLogf != nil && c.api != nil && rw != nil && r != nil && r.URL != nil
+//@ requires implements(data, "Responder") ==> route != nil
+//@ stable route.Producers[*], r.URL, r.Method, comp:F!net/http.Request!Method, comp:F!github.com/go-openapi/spec.OperationProps!ID, comp:MV!Str!Iface, comp:MD!Str!Iface
+//@ assume after SE ret(SE,0,0) != nil
+//@ assume after PF forall k string :: in(k, ret(PF,0,0)) ==> ret(PF,0,0)[k] != nil
+//@ requires route != nil ==> forall k string :: in(k, route.Producers) ==> route.Producers[k] != nil
+//@ ensures [C08:negotiate] calls(RF) == 1 && arg(RF,0,0) == c && arg(RF,0,1) == r
+//@ ensures [C08:contenttype] calls(HS) >= 1 && arg(HS,0,1) == "Content-Type" && arg(HS,0,2) == ret(RF,0,0) && (calls(WH) >= 1 ==> time(HS,0) < time(WH,0)) && (calls(WR) >= 1 ==> time(HS,0) < time(WR,0)) && (calls(SD) >= 1 ==> time(HS,0) < time(SD,0))
+//@ ensures [C08:responder] implements(data, "Responder") ==> calls(WR) == 1 && recv(WR,0) == data && arg(WR,0,0) == rw && calls(PR) == 0 && calls(SD) == 0 && calls(WH) == 0
+//@ ensures [C08:responderproducer] implements(data, "Responder") ==> calls(NO) >= 1 && arg(NO,0,0) == ret(RF,0,0) && (in(ret(NO,0,0), route.Producers) ==> arg(WR,0,1) == route.Producers[ret(NO,0,0)])
+//@ ensures [C08:error] !implements(data, "Responder") && implements(data, "error") ==> calls(SE) == 1 && calls(SD) == 1 && arg(SD,0,0) == rw && arg(SD,0,2) == data && calls(PR) == 0 && calls(WR) == 0 && calls(WH) == 0
+//@ ensures [C08:errorop] !implements(data, "Responder") && implements(data, "error") ==> arg(SE,0,0) == ((route == nil || route.Operation == nil) ? "" : route.Operation.ID)
+//@ ensures [C08:errorjson] !implements(data, "Responder") && implements(data, "error") && ret(RF,0,0) == "" ==> calls(HS) >= 2 && arg(HS,1,1) == "Content-Type" && arg(HS,1,2) == "application/json"
+//@ ensures [C08:challenge] !implements(data, "Responder") && implements(data, "error") ==> calls(FB) == 1 && arg(FB,0,0) == ret(RF,0,1) && (ret(FB,0,0) != "" ==> calls(SP) == 1 && arg(SP,0,0) == "Basic realm=%q" && argv(SP,0,1,0) == boxof(ret(FB,0,0)) && exists k int @try(1) @try(2) :: called(HS,k) && arg(HS,k,1) == "WWW-Authenticate" && arg(HS,k,2) == ret(SP,0,0))
+//@ ensures [C08:nochallenge] !implements(data, "Responder") && implements(data, "error") && ret(FB,0,0) == "" ==> calls(SP) == 0 && forall k int :: called(HS,k) ==> arg(HS,k,1) == "Content-Type"
+//@ ensures [C08:noroute] !implements(data, "Responder") && !implements(data, "error") && (route == nil || route.Operation == nil) ==> calls(WH) == 1 && arg(WH,0,0) == 200 && (ret(RF,0,1).Method == "HEAD" ==> calls(PR) == 0)
+//@ ensures [C08:status] !implements(data, "Responder") && !implements(data, "error") && route != nil && route.Operation != nil ==> calls(SR) == 1 && (ret(SR,0,2) ==> calls(WH) == 1 && arg(WH,0,0) == ret(SR,0,1) && calls(SD) == 0) && (!ret(SR,0,2) ==> calls(WH) == 0 && calls(PR) == 0 && calls(SD) == 1)
+//@ ensures [C08:nobody] calls(WH) == 1 && (arg(WH,0,0) == 204 || ret(RF,0,1).Method == "HEAD") && calls(SR) == 1 ==> calls(PR) == 0
+//@ ensures [C08:body] calls(SR) == 1 && ret(SR,0,2) && ret(SR,0,1) != 204 && ret(RF,0,1).Method != "HEAD" ==> calls(PR) == 1 && time(WH,0) < time(PR,0) && arg(PR,0,0) == rw && arg(PR,0,1) == data
+//@ ensures [C08:producer] calls(SR) == 1 && calls(PR) == 1 ==> calls(NO) >= 1 && arg(NO,0,0) == ret(RF,0,0) && (in(ret(NO,0,0), route.Producers) ==> recv(PR,0) == route.Producers[ret(NO,0,0)])
+//@ ensures [C08:noroutebody] calls(SR) == 0 && calls(PR) == 1 ==> calls(PF) >= 1 && arg(PR,0,0) == rw && arg(PR,0,1) == data && calls(NO) >= 1 && recv(PR,0) == ret(PF,0,0)[ret(NO,0,0)]
+
+//@ func (*errorResp).WriteResponse
+//@ watch WH = invoke (net/http.ResponseWriter).WriteHeader
+//@ watch PR = invoke (runtime.Producer).Produce
+//@ requires e != nil && rw != nil && producer != nil && Logger != nil
+//@ stable comp:G!github.com/go-openapi/runtime/middleware.Logger
+//@ ensures [C08:errorresp] calls(WH) == 1 && arg(WH,0,0) == (e.code > 0 ? e.code : 500) && calls(PR) == 1 && recv(PR,0) == producer && arg(PR,0,0) == rw && arg(PR,0,1) == e.response && time(WH,0) < time(PR,0)
+//@ loop 0 invariant calls(WH) == 0 && calls(PR) == 0
+//@ loop 1 invariant calls(WH) == 0 && calls(PR) == 0
+
+//@ func Error
+//@ ensures [C08:error] result != nil && unboxptr(result, "*errorResp").code == code && unboxptr(result, "*errorResp").response == data && typeis(result, "*github.com/go-openapi/runtime/middleware.errorResp")
+
+//@ func NotImplemented
+//@ watch ER = call Error
+//@ ensures [C08:notimplemented] calls(ER) == 1 && arg(ER,0,0) == 501 && arg(ER,0,1) == boxof(message) && result == ret(ER,0,0)
